@@ -191,8 +191,8 @@ theorem xzFile_msgs (cfg : Cfg) (o : Opts) (fi : FileIn) (out : Dest) :
       else
         List.replicate fi.initWarn Msg.warning ++
           (if fi.initRet = .ok ∨ fi.initRet = .streamEnd then
-            (coderNormal cfg fi.allowTrailing fi.trailing fi.steps []).msgs else [Msg.error]) := by
-  unfold xzFile
+            (coderNormal cfg (allowOf o fi) fi.trailing fi.steps []).msgs else [Msg.error]) := by
+  unfold xzFile xzFileWith
   cases hk : fi.fmtKnown with
   | false =>
     cases hm : o.mode <;> cases hs : o.toStdout <;> cases hfo : o.force <;> simp [coderPassthru]
